@@ -72,7 +72,12 @@ pub fn run_plan(idx: u64, seed: u64, plan: &Plan, tweak: impl FnOnce(&mut RunCfg
     let mut rng = gen_rng(seed);
     let mut cfg = gen_cfg(&mut rng, idx, plan.scenario, &plan.opts);
     tweak(&mut cfg, &mut rng);
-    let profile = plan.profile.swarm(&mut rng);
+    let mut profile = plan.profile.swarm(&mut rng);
+    // benign variation every scenario gets (the mutation rounds showed that a fault kind which is
+    // present but never meets exact-fit buffers, accessor queries or large payloads hides bugs)
+    profile.wild_buffers = true;
+    profile.query = profile.query.max(40);
+    profile.big_payloads = profile.big_payloads.max(10);
     let mut w = World::new(cfg.clone());
     let ops = {
         let mut d = Driver::new(&mut w, &mut rng);
